@@ -241,3 +241,25 @@ def pdiff(a, b, rtol=0.0, path="", out=None, limit=8, atol=0.0):
 def _short(x, n=160):
     s = repr(x)
     return s if len(s) <= n else s[:n] + "..."
+
+
+def report_digest(res):
+    """digest of what a finished Result REPORTS through its public interface (not only the stored arrays): whether programs were used,
+    the raw export table, spending and coverage reports, and every flow looked up by its name in every population"""
+    h = hashlib.sha1()
+    h.update(repr(bool(res.used_programs) if res.used_programs is not None else None).encode())
+    df = res.export_raw()
+    h.update(repr([tuple(map(str, i)) if isinstance(i, tuple) else str(i) for i in df.index]).encode())
+    h.update(np.ascontiguousarray(np.asarray(df.values, dtype=float)).tobytes())
+    if res.used_programs:
+        reports = [("alloc", res.get_alloc())] + [(q, res.get_coverage(q)) for q in ("capacity", "eligible", "fraction", "number")]
+        for q, rep in reports:
+            for name in sorted(rep):
+                h.update(("%s/%s" % (q, name)).encode())
+                h.update(np.ascontiguousarray(np.asarray(rep[name], dtype=float)).tobytes())
+    for pop in res.model.pops:
+        for name in sorted({l.name for l in pop.links}):
+            tot = sum(np.asarray(v.vals, dtype=float) for v in res.get_variable(name, pop.name))
+            h.update(("%s/%s" % (pop.name, name)).encode())
+            h.update(np.ascontiguousarray(tot).tobytes())
+    return h.hexdigest()
